@@ -98,6 +98,13 @@ func (p c06) history(c *fw.Ctx) []c06Step {
 		{K: gt.KIdxAssign, Op: ".", Name: "x", Text: "zz", Kids: []*gt.Node{nil, gt.Lit(int64(99))}}, gt.Id("x")}})
 	add("def", &gt.Node{K: gt.KFunc, Name: "app", Params: []string{"x", "v"}, Body: []*gt.Node{
 		gt.Assign("x", gt.In("+", gt.Id("x"), gt.MkArr(gt.Id("v")))), gt.Id("x")}})
+	// functions whose result holds a large array as a map key / as an element: every call returns a value of its own
+	bigEls := make([]*gt.Node, 9+r.IntN(4))
+	for i := range bigEls {
+		bigEls[i] = gt.Lit(int64(i + 1))
+	}
+	add("def", &gt.Node{K: gt.KFunc, Name: "mkK", Params: []string{"n"}, Body: []*gt.Node{{K: gt.KMap, Kids: []*gt.Node{gt.MkArr(bigEls...), gt.Id("n")}}}})
+	add("def", &gt.Node{K: gt.KFunc, Name: "mkV", Params: []string{"n"}, Body: []*gt.Node{gt.MkArr(&gt.Node{K: gt.KMap, Kids: []*gt.Node{gt.MkArr(bigEls...), gt.Id("n")}}, gt.Id("n"))}})
 	// two initial bindings
 	add("bind", gt.Assign("a", c06Lit(c, false)))
 	kinds["a"] = "a"
@@ -106,7 +113,32 @@ func (p c06) history(c *fw.Ctx) []c06Step {
 	n := 6 + r.IntN(20)
 	val := func() *gt.Node { return gt.Lit(int64(100 + r.IntN(900))) }
 	for len(steps) < n+5 {
-		switch r.IntN(23) {
+		switch r.IntN(25) {
+		case 23, 24: // two results of one call, the key array of one taken out and updated through its own binding, a later call
+			x := c06Vars[r.IntN(len(c06Vars))]
+			y, k := other(x), ""
+			for k == "" || k == x || k == y {
+				k = c06Vars[r.IntN(len(c06Vars))]
+			}
+			arg := gt.Lit(int64(1 + r.IntN(2)))
+			if r.IntN(2) == 0 {
+				add("bind", gt.Assign(x, gt.Call(gt.Id("mkK"), arg)))
+				if r.IntN(2) == 0 {
+					add("bind", gt.Assign(y, gt.Call(gt.Id("mkK"), arg)))
+				}
+				add("copy", gt.Assign(k, &gt.Node{K: gt.KDot, Kids: []*gt.Node{gt.Bi("first", gt.Id(x))}, Text: "key"}))
+				kinds[x], kinds[y] = "m", "m"
+			} else {
+				add("bind", gt.Assign(x, gt.Call(gt.Id("mkV"), arg)))
+				if r.IntN(2) == 0 {
+					add("bind", gt.Assign(y, gt.Call(gt.Id("mkV"), arg)))
+				}
+				add("copy", gt.Assign(k, &gt.Node{K: gt.KDot, Kids: []*gt.Node{gt.Bi("first", gt.Idx(gt.Id(x), gt.Lit(int64(0))))}, Text: "key"}))
+				kinds[x], kinds[y] = "a", "a"
+			}
+			kinds[k] = "a"
+			add("idxassign", &gt.Node{K: gt.KIdxAssign, Name: k, Kids: []*gt.Node{gt.Lit(int64(r.IntN(4) - 2)), val()}})
+			add("bind", gt.Assign(y, gt.Call(gt.Id([]string{"mkK", "mkV"}[r.IntN(2)]), arg)))
 		case 0:
 			v := c06Vars[r.IntN(len(c06Vars))]
 			isMap := r.IntN(2) == 0
